@@ -33,7 +33,7 @@ def is_abs_of(v, name):
 
 
 def run(ctx, chk):
-    fb = ctx.facts('dev')
+    fb = ctx.facts()
     chk.explanation = ('Linear form of the value assigned to the updater\'s bound on the synchronised path: coefficients of '
                        'root_delay / root_dispersion / |current_correction| are 0.5e9 / 1e9 / 1e9 (F1, F5), the offset leaf '
                        'is under a magnitude operator so the result is non-negative for any sign (F2), the integer is the '
